@@ -99,6 +99,7 @@ theorem trk_accCur_back2 (m : C10St) (o : CObs) (p : Nat × Nat × Option Nat ×
   | cancelCall a' => exact Or.inl (same h)
   | cbinReleased a' => exact Or.inl (same h)
   | probeCtx a' i c => exact Or.inl (same h)
+  | probeProm a' _ _ _ => exact Or.inl (same h)
 
 theorem find_cons_filter_ne {β : Type} (l : List (Nat × β)) (a a' : Nat) (x : β) (h : a' ≠ a) :
     ((a', x) :: l.filter (·.1 != a')).find? (·.1 == a) = l.find? (·.1 == a) := by
@@ -137,6 +138,7 @@ theorem trk_accLast (m : C10St) (o : CObs) (a : Nat) (h : ∀ i r, o ≠ .cbout 
   | cancelCall a' => rfl
   | cbinReleased a' => rfl
   | probeCtx a' i c => rfl
+  | probeProm a' _ _ _ => rfl
 
 theorem trk_cancelled_back (m : C10St) (o : CObs) (a : Nat) (h : a ∈ (trk m o).cancelled) :
     a ∈ m.cancelled ∨ o = .cancelCall a := by
@@ -159,6 +161,7 @@ theorem trk_cancelled_back (m : C10St) (o : CObs) (a : Nat) (h : a ∈ (trk m o)
     · exact Or.inl h
   | cbinReleased a' => exact Or.inl h
   | probeCtx a' i c => exact Or.inl h
+  | probeProm a' _ _ _ => exact Or.inl h
 
 /-- the bookkeeping moves, the consumer and the base state stay -/
 theorem cb_mon (b : St) (m : C10St) (o : CObs) (a : Nat) (c : Con) (h : CB b m a c)
@@ -404,6 +407,7 @@ theorem hook_view_na (c : Con) (nonce : Nat) (res : Bool) (v e : Nat) (hop : c.o
   | access => exact absurd h hop
   | wait => simp
   | resolve => simp
+  | promise => simp
   | rwr cb => simp only []; (repeat' split) <;> exact ⟨rfl, rfl⟩
 
 theorem addRef_th (b b' : St) (a : Nat) (k : CbKind) (hs : step b (.addRefCS a) = some b')
@@ -991,6 +995,7 @@ theorem rb_step (s : CSt) (e : CEv) (s' : CSt) (m : C10St) (h : RB s m) (hs : cs
         | goRel a' => simp [CEv.obs] at hob
         | goCb a' => simp [CEv.obs] at hob
         | probeCtx a' i' c0 => simp [CEv.obs] at hob
+        | probeProm a' _ _ _ => simp [CEv.obs] at hob
   rcases (cstep_frame s s' e hs).1 a c' hc' with hun | ⟨c, hc, ht⟩ | ⟨hnone, a', op, he, hcn⟩
   · have hcb := hcons a c' hun
     have hok := hci.cons a c' hun
@@ -1096,12 +1101,14 @@ theorem chkResult_ok (s : CSt) (e : CEv) (s' : CSt) (m : C10St) (o : CObs) (h : 
           exact absurd hpc ((hca.opok.1 hop).2 v' x')
       | wait => rfl
       | resolve => rfl
+      | promise => rfl
       | rwr cb => rfl
   | base bo => rfl
   | inv a op => rfl
   | cancelCall a => rfl
   | cbinReleased a => rfl
   | probeCtx a i c => rfl
+  | probeProm a _ _ _ => rfl
   | cbin a i v => rfl
   | cbout a i r => rfl
 
@@ -1211,6 +1218,7 @@ theorem chkCancel_ok (s : CSt) (e : CEv) (s' : CSt) (m : C10St) (o : CObs) (h : 
   | inv a op => rfl
   | cancelCall a => rfl
   | cbinReleased a => rfl
+  | probeProm a _ _ _ => rfl
   | ret a v x => rfl
   | cbin a i v => rfl
   | cbout a i r => rfl
